@@ -309,7 +309,7 @@ type c13Case struct {
 
 func c13Round(r *Run, rng *gen.Rng, st *c13Stats, corpus []string, roundSize, sweepN int) error {
 	b := c13Budgets()
-	mounts := []string{"/sim/m", "/sim/m", "/w/my proj", "/a/b/c/d", "/m", "/home/u/.dotfiles/p", "/w/proj-1.2/src"}
+	mounts := []string{"/sim/m", "/sim/m", "/w/my proj", "/a/b/c/d", "/m", "/home/u/.dotfiles/p", "/w/proj-1.2/src", "/w/projet-été/src"}
 	exes := []string{"/sim/x", "/opt/tsh/bin", "/sim/m/bin"}
 	mk := func(gw *gen.GenWorld, family, corrupt string) c13Case {
 		mount, exe := rng.Pick(mounts), rng.Pick(exes)
